@@ -438,6 +438,60 @@ def check_key_centre(prog: Program, res: Result) -> None:
                         f".{attr}", instance=inst)
 
 
+def check_matrix_view(prog: Program, res: Result) -> None:
+    res.rule("R-VIEW-AGREE", "connectivity_matrix is indexed in the order of "
+             "the atoms view (dictionary atom -> position built from "
+             "enumerate(self.atoms)), loops over the bonds view and sets both "
+             "symmetric entries")
+    fi = prog.resolve_method("MolGraph", "connectivity_matrix")
+    dcs = [n for n in ast.walk(fi.node) if isinstance(n, ast.Assign)
+           and isinstance(n.value, ast.DictComp)
+           and "enumerate(self.atoms)" in norm(n.value.generators[0].iter)]
+    inst = "connectivity_matrix: position dictionary atom -> index"
+    if not dcs:
+        res.unrecognised("R-VIEW-AGREE", inst, fi.loc(), "no dictionary over "
+                         "enumerate(self.atoms)")
+        return
+    dc = dcs[0].value
+    tgt = dc.generators[0].target
+    dname = norm(dcs[0].targets[0])
+    if isinstance(tgt, ast.Tuple) and len(tgt.elts) == 2 and \
+            norm(dc.key) == norm(tgt.elts[1]) and norm(dc.value) == norm(
+            tgt.elts[0]):
+        res.ok("R-VIEW-AGREE", inst, fi.loc(dcs[0]))
+    else:
+        res.bad("R-VIEW-AGREE", f"connectivity_matrix: {norm(dcs[0], 80)}",
+                fi.loc(dcs[0]), f"{inst}: `{norm(dc, 80)}` maps position -> "
+                "atom (or something else); rows / columns no longer follow "
+                "the atoms view for identifiers other than 0..n-1",
+                instance=inst)
+    loops = [l for l in ast.walk(fi.node) if isinstance(l, ast.For)
+             and norm(l.iter) in ("self.bonds", "self._bond_attrs")]
+    inst = "connectivity_matrix: both symmetric entries of every bond"
+    if not loops or not isinstance(loops[0].target, ast.Tuple):
+        res.unrecognised("R-VIEW-AGREE", inst, fi.loc(), "loop over the bonds")
+        return
+    a1, a2 = (norm(x) for x in loops[0].target.elts)
+    stores = set()
+    for st in ast.walk(loops[0]):
+        if isinstance(st, ast.Assign) and norm(st.value) == "1":
+            t = norm(st.targets[0])
+            stores.add(t)
+    want = {f"matrix[{dname}[{a1}]][{dname}[{a2}]]",
+            f"matrix[{dname}[{a2}]][{dname}[{a1}]]"}
+    alt = {f"matrix[{dname}[{a1}], {dname}[{a2}]]",
+           f"matrix[{dname}[{a2}], {dname}[{a1}]]"}
+    if want <= stores or alt <= stores:
+        res.ok("R-VIEW-AGREE", inst, fi.loc(loops[0]))
+    elif stores & (want | alt):
+        res.bad("R-VIEW-AGREE", f"connectivity_matrix stores {sorted(stores)}",
+                fi.loc(loops[0]), f"{inst}: only {sorted(stores)} is set; the "
+                "matrix is not symmetric", instance=inst)
+    else:
+        res.unrecognised("R-VIEW-AGREE", inst, fi.loc(loops[0]),
+                         f"stores {sorted(stores)}")
+
+
 def run(prog: Program, res: Result, tier: str) -> None:
     res.trusted += [
         "effect transfer functions of sa/absint.py; reader list = every "
@@ -450,5 +504,6 @@ def run(prog: Program, res: Result, tier: str) -> None:
     check_preserve(prog, res)
     check_purge(prog, res)
     check_key_centre(prog, res)
+    check_matrix_view(prog, res)
     from ..derive import check_container_kinds
     check_container_kinds(prog, res)
